@@ -379,6 +379,17 @@ fn templates(rng: &mut Rng, thorough: bool) -> Vec<(Cfg, Vec<Step>)> {
         Step::Mine(vec![]), Step::Mine(vec![]), Step::Poll, reg(1), Step::Mine(vec![]), Step::Mine(vec![]), Step::Poll,
         Step::Mine(vec![2]), Step::Poll,
     ]));
+    // 3b/3c: boundary configurations: a subscription that is expired (and, with no grace period, already due for the
+    // purge) at the very height it was registered at; a restart there must bring the user back so that the next
+    // block purges it, and the replies before the purge state the expiry
+    for (d, g) in [(0u32, 0u32), (0, 1), (1, 0)] {
+        v.push((Cfg { slots: 5, duration: d, delta: g }, vec![
+            reg(0), reg(1), Step::Api(Op::GetSub { signer: 0, class: 0 }), Step::Add(0, 1, 1, 101, 0),
+            Step::Api(Op::GetSub { signer: 1, class: 0 }), Step::Mine(vec![]), Step::Poll,
+            Step::Api(Op::GetSub { signer: 0, class: 0 }), reg(0), Step::Mine(vec![]), Step::Poll,
+            Step::Api(Op::GetSub { signer: 0, class: 0 }), Step::Mine(vec![]), Step::Poll, Step::Api(Op::GetSub { signer: 1, class: 0 }),
+        ]));
+    }
     // 4: completion with refund: a tracker buried 100 blocks deep, delivered in two big polls
     {
         let mut s = vec![reg(0), Step::Add(0, 1, 1, 101, 4000), Step::Mine(vec![1]), Step::Poll, Step::Mine(vec![101]), Step::Poll];
